@@ -20,15 +20,15 @@ func init() { register("C09", checkC09) }
 
 // nilCtx carries the state of the nil-discipline analysis (R-NIL).
 type nilCtx struct {
-	cx      *Ctx
-	vf      *VFlow
-	scope   map[*ssa.Function]bool
-	memo    map[ssa.Value]int // 0 unknown, 1 in progress, 2 may be nil, 3 not nil
-	why     map[ssa.Value]string
-	cfgInvOK bool                             // constructor invariant: a constructed Provider's Config has a non-nil IDPConfig
-	spInvOK bool                              // constructor invariant: registered providers have Metadata and Metadata.SPSSODescriptor
-	chainFx map[*ssa.Function]map[string]bool // closure -> access paths known non-nil on entry (facts of earlier steps)
-	callers map[*ssa.Function][]ssa.CallInstruction
+	cx       *Ctx
+	vf       *VFlow
+	scope    map[*ssa.Function]bool
+	memo     map[ssa.Value]int // 0 unknown, 1 in progress, 2 may be nil, 3 not nil
+	why      map[ssa.Value]string
+	cfgInvOK bool                              // constructor invariant: a constructed Provider's Config has a non-nil IDPConfig
+	spInvOK  bool                              // constructor invariant: registered providers have Metadata and Metadata.SPSSODescriptor
+	chainFx  map[*ssa.Function]map[string]bool // closure -> access paths known non-nil on entry (facts of earlier steps)
+	callers  map[*ssa.Function][]ssa.CallInstruction
 }
 
 func isXMLModelStruct(t types.Type) bool {
@@ -782,6 +782,16 @@ func checkC09(cx *Ctx, r *Report) {
 	nc.cfgInvOK = cx.checkConfigInvariant(r)
 	nc.computeChainFacts(r)
 	nc.checkChainAssignments(r)
+	// sibling results of a failed call are not used: the failing branch leaves (R-ERR; R-NIL relies on it when it
+	// takes a result returned together with a non-nil error for unobservable)
+	{
+		var efns []*ssa.Function
+		for f := range vf.scope {
+			efns = append(efns, f)
+		}
+		sort.Slice(efns, func(i, j int) bool { return w.FuncKey(efns[i]) < w.FuncKey(efns[j]) })
+		cx.checkErrDiscipline(r, efns)
+	}
 
 	// --- R-NIL ---------------------------------------------------------------------------
 	var fns []*ssa.Function
@@ -1417,11 +1427,36 @@ func (nc *nilCtx) sparseMake(l string) string {
 }
 
 // reachAvoidingBlock: can `to` be reached from `from` (one or more edges) without entering block avoid?
+// deadEdge: successor k of b is never taken because b ends in a branch on a boolean constant.
+func deadEdge(b *ssa.BasicBlock, k int) bool {
+	if len(b.Instrs) == 0 || len(b.Succs) != 2 {
+		return false
+	}
+	ifi, ok := b.Instrs[len(b.Instrs)-1].(*ssa.If)
+	if !ok {
+		return false
+	}
+	c, ok := ifi.Cond.(*ssa.Const)
+	if !ok || c.Value == nil {
+		return false
+	}
+	switch c.Value.ExactString() {
+	case "true":
+		return k == 1
+	case "false":
+		return k == 0
+	}
+	return false
+}
+
 func reachAvoidingBlock(from, to, avoid *ssa.BasicBlock) bool {
 	seen := map[*ssa.BasicBlock]bool{}
 	var dfs func(x *ssa.BasicBlock) bool
 	dfs = func(x *ssa.BasicBlock) bool {
-		for _, s := range x.Succs {
+		for k, s := range x.Succs {
+			if deadEdge(x, k) {
+				continue
+			}
 			if s == avoid {
 				continue
 			}
